@@ -239,6 +239,14 @@ func c02Value(cs *core.Case, p rtcp.Packet) {
 		}
 	}
 
+	// every element of a decoded list is an object of its own: if two positions were one object,
+	// editing one element of the result would edit another, and the result would no longer be the
+	// value that was encoded
+	if derr == nil && got != nil {
+		if what, shared := mon.SharedElems(got); shared {
+			cs.Fail("own-decoder/positions-share-an-object/"+k.String(), det(core.W{"what": what})())
+		}
+	}
 	// the texts of a decoded packet are Go strings: overwriting the buffer the packet was decoded
 	// from (as a receive loop does with the next datagram) may not change them
 	if derr == nil && got != nil {
